@@ -205,6 +205,36 @@ Section GuardProofs.
     - apply Hcf. congruence.
   Qed.
 
+  (* the checked read of a frame depends only on the file length, the bytes in the frame's window and the
+     frame's TOC entry *)
+  Theorem read_depends_on_window ctx (file file' : bytes) fr :
+    length file' = length file ->
+    slice file' (N.to_nat (f_off fr)) (N.to_nat (f_len fr)) = slice file (N.to_nat (f_off fr)) (N.to_nat (f_len fr)) ->
+    read_frame_payload_bytes H ctx file' fr = read_frame_payload_bytes H ctx file fr.
+  Proof. intros Hl Hs. unfold read_frame_payload_bytes. rewrite Hl, Hs. reflexivity. Qed.
+
+  (* ... and not on what was read through the handle before: any two histories give the same answer *)
+  Theorem handle_read_history_independent ctx file h1 h2 fr :
+    snd (handle_read H ctx file h1 fr) = snd (handle_read H ctx file h2 fr) /\
+    snd (handle_read H ctx file h1 fr) = read_frame_payload_bytes H ctx file fr.
+  Proof. split; reflexivity. Qed.
+
+  (* so a schedule's answers are the per-frame answers, whatever came before and in whatever order *)
+  Theorem run_reads_pointwise ctx file sched : forall hist,
+    run_reads H ctx file hist sched = map (read_frame_payload_bytes H ctx file) sched.
+  Proof.
+    induction sched as [|fr r IH]; intros hist; [reflexivity|].
+    cbn [run_reads handle_read map]. rewrite IH. reflexivity.
+  Qed.
+
+  Corollary run_reads_answer_of_frame ctx file hist1 hist2 s1 s2 i j fr :
+    nth_error s1 i = Some fr -> nth_error s2 j = Some fr ->
+    nth_error (run_reads H ctx file hist1 s1) i = nth_error (run_reads H ctx file hist2 s2) j.
+  Proof.
+    intros H1 H2. rewrite !run_reads_pointwise.
+    rewrite (map_nth_error _ _ _ H1), (map_nth_error _ _ _ H2). reflexivity.
+  Qed.
+
   Variable unzstd : bytes -> option bytes.
 
   Theorem payload_detects ctx file file' fr raw raw' d' :
